@@ -1416,7 +1416,7 @@ class ProgramData:
                     raise RuntimeError("Program output should not contain an extension")
                 program_output_name = option_value
             elif option_name == "O":
-                if not option_value.isdigit() or int(option_value) >= len(cls._OPTIMIZE_LEVELS):
+                if not (option_value.isascii() and option_value.isdigit()) or int(option_value) >= len(cls._OPTIMIZE_LEVELS):
                     raise RuntimeError("Invalid optimisation level " + option_value)
                 optimize_level = int(option_value)
             elif option_name in ["f", "flag"]:
